@@ -55,6 +55,14 @@ pub fn run_chaos(s: &Streams) -> CaseOut {
     cfg.expr.random = dch.chance(2, 3);
     cfg.maybe_unbound_refs = dch.chance(2, 3);
     cfg.counter_rebind = dch.chance(1, 2);
+    // one case in forty has 61-67 extra one-bit inputs and rows that hold X in every input column
+    // (64 and more don't-cares in one row: only the first few of the 2^k items are asked for)
+    if dch.chance(1, 40) {
+        cfg.wide_inputs = true;
+        cfg.all_x_rows = true;
+        cfg.omit_cols = false;
+        out.class("rows-with-64-and-more-X");
+    }
     let mut built = gen_case(&mut Ch::new(&s[0]), &cfg);
     // In half of the cases one statement that cannot be evaluated whatever the values are is
     // put at a random TOP-LEVEL position: it is executed unconditionally once everything
@@ -292,7 +300,7 @@ impl Property for C10 {
         "C10"
     }
     fn rule(&self) -> &'static str {
-        "profile `chaos`: everything the other profiles avoid - unguarded / and %, random with bounds {-1,0,1,2,...}, signExt, variables bound only on paths that do not execute (while(0), loops with bound <= 0), counter rebinding incl. to i64::MAX, 64-bit boundary arithmetic and shift counts, widths 1..64, wild defaults, shared input/expected columns, X and C anywhere, virtual signals using random, drivers answering Z/X and returning errors at any call, seeds {0,1,MAX,random}; each case enables a random subset of the hazard sources; kept only if the crate accepts it at load time; one case in six is a deliberate misfit between program and signal list (a C entry in an expected-only column, a C column that is an output, edits of the list as in C11) - refused by a correct binding and then discarded, run like any other accepted test if it is accepted all the same. Run through try_iter, next() to the first error item or the end (+1 call), vars() after each row, and try_iter_static. Oracle: (1) no panic anywhere; (2) in half of the cases a statement that cannot be evaluated whatever the values are - division / remainder by literal zero, signExt, a variable whose only `let` sits in a while(0) body or in a loop with bound 0, each also as the right operand of `0 & ...` / `0 * ...` (only ite is lazy) - is planted at a random top-level position, where it is executed unconditionally: a run that reaches the end of iteration must then contain an error item. Nothing is asserted about values. The reference interpreter (replaying the crate's own draw log) only classifies which hazards were reached, for the histogram. Non-trivial: a hazardous evaluation was reached or planted, or a width >= 63 is used, or >= 3 rows ran; distinct by source + signals + driver + seed. Thorough adds libFuzzer target run_structured on the same decoder."
+        "profile `chaos`: everything the other profiles avoid - unguarded / and %, random with bounds {-1,0,1,2,...}, signExt, variables bound only on paths that do not execute (while(0), loops with bound <= 0), counter rebinding incl. to i64::MAX, 64-bit boundary arithmetic and shift counts, widths 1..64, wild defaults, shared input/expected columns, X and C anywhere (one case in forty: 61-67 extra inputs and rows with X in every input column), virtual signals using random, drivers answering Z/X and returning errors at any call, seeds {0,1,MAX,random}; each case enables a random subset of the hazard sources; kept only if the crate accepts it at load time; one case in six is a deliberate misfit between program and signal list (a C entry in an expected-only column, a C column that is an output, edits of the list as in C11) - refused by a correct binding and then discarded, run like any other accepted test if it is accepted all the same. Run through try_iter, next() to the first error item or the end (+1 call), vars() after each row, and try_iter_static. Oracle: (1) no panic anywhere; (2) in half of the cases a statement that cannot be evaluated whatever the values are - division / remainder by literal zero, signExt, a variable whose only `let` sits in a while(0) body or in a loop with bound 0, each also as the right operand of `0 & ...` / `0 * ...` (only ite is lazy) - is planted at a random top-level position, where it is executed unconditionally: a run that reaches the end of iteration must then contain an error item. Nothing is asserted about values. The reference interpreter (replaying the crate's own draw log) only classifies which hazards were reached, for the histogram. Non-trivial: a hazardous evaluation was reached or planted, or a width >= 63 is used, or >= 3 rows ran; distinct by source + signals + driver + seed. Thorough adds libFuzzer target run_structured on the same decoder."
     }
     fn cases(&self, tier: Tier) -> u64 {
         match tier {
@@ -301,7 +309,7 @@ impl Property for C10 {
         }
     }
     fn required_classes(&self) -> Vec<&'static str> {
-        vec!["hazard:divzero", "hazard:unresolved", "hazard:zxread", "hazard:randombound", "hazard:signext", "width>=63", "driver-error", "static-run", "random", "declare", "planted-unconditional-hazard", "planted-hazard-surfaced"]
+        vec!["hazard:divzero", "hazard:unresolved", "hazard:zxread", "hazard:randombound", "hazard:signext", "width>=63", "driver-error", "static-run", "random", "declare", "planted-unconditional-hazard", "planted-hazard-surfaced", "rows-with-64-and-more-X"]
     }
     fn check_raw(&self, _kind: &str, data: &[u8]) -> Option<(String, String)> {
         crate::fuzzglue::run_structured_kv(data)
